@@ -298,6 +298,9 @@ func (h *FHDR) UnmarshalBinary(uplink bool, data []byte) error {
 		return errors.New("lorawan: at least 7 bytes are expected")
 	}
 
+	// a frame without FOpts must not keep the FOpts of a previous decode
+	h.FOpts = nil
+
 	if err := h.DevAddr.UnmarshalBinary(data[0:4]); err != nil {
 		return err
 	}
